@@ -82,16 +82,21 @@ KeyEqualityLaws ==
 Accessors == {"attributes", "fields", "fields_except_padding", "constants", "name_components", "namespace_components"}
 Ops == {"append", "clear", "pop", "reverse", "setitem"}
 ObjKinds == {"st", "un", "del", "inner", "svc", "req"}      \* structure, union, delimited + its inner type, service + its request
+\* objects that were not read from a definition but built by the caller through the public constructors from a list of
+\* attributes of the caller's own (structure, union, the delimited wrapper of such a structure): the caller's list is one more
+\* list that may alias the object's state - "ctor_arg" stands for it in a history
+BuiltKinds == {"bst", "bun", "bdel"}
+AccessorsOf(o) == IF o \in BuiltKinds THEN Accessors \cup {"ctor_arg"} ELSE Accessors
 \* what the object shows: name components and the numbers of attributes; a handed-out list is a copy unless aliased
 Obj0 == [names |-> <<"ns", "sub", "T">>, nattr |-> 3]
 MutList(l, op) == CASE op = "append" -> Append(l, "zz") [] op = "clear" -> <<>> [] op = "pop" -> IF l = <<>> THEN l ELSE SubSeq(l, 1, Len(l) - 1)
                     [] op = "reverse" -> [j \in DOMAIN l |-> l[Len(l) + 1 - j]] [] op = "setitem" -> IF l = <<>> THEN l ELSE [l EXCEPT ![1] = "zz"]
 AInit == ph = 0 /\ case = [obj |-> "st", warm |-> FALSE, h |-> <<>>] /\ out = Obj0
 APick == /\ Mode = "acc" /\ ph = 0
-         /\ \E o \in ObjKinds, w \in BOOLEAN : case' = [obj |-> o, warm |-> w, h |-> <<>>]
+         /\ \E o \in ObjKinds \cup BuiltKinds, w \in BOOLEAN : case' = [obj |-> o, warm |-> w, h |-> <<>>]
          /\ out' = Obj0 /\ ph' = 1
 AStep == /\ Mode = "acc" /\ ph >= 1 /\ ph <= MaxSteps
-         /\ \E a \in Accessors, op \in Ops :
+         /\ \E a \in AccessorsOf(case.obj), op \in Ops :
               /\ case' = [case EXCEPT !.h = Append(@, [acc |-> a, op |-> op])]
               /\ out' = IF AsFoundAlias /\ a = "name_components" THEN [out EXCEPT !.names = MutList(@, op)] ELSE out
          /\ ph' = ph + 1
